@@ -208,6 +208,45 @@ def check(ctx):
                "the rule under the header is as wide as the DISPLAY width of the padded cells" if ok else
                f"the rule's length is {norm(other)}, not util.ulen(...): for names with double-width characters the rule is "
                f"narrower than the padded cells", clause="within a block all lines have the same display width")
+    from ..pattern import pmatch as _pm, pstmt as _ps, text as _tx
+    from ..forms import resolved_text as _rt
+    S_ = ts.params[0]
+    stm_ts = sorted((n for n in body_nodes(ts.node) if isinstance(n, ast.stmt)), key=lambda n: n.lineno)
+    nb = None
+    for n in stm_ts:
+        b_ = _ps(f"_N = min({S_}.nrow, max_rows)", n) or _ps(f"_N = min(max_rows, {S_}.nrow)", n)
+        if b_ is not None:
+            nb = (n, b_["_N"])
+    ctx.ob("SIB-pad", ts, _tx(nb[0]) if nb else "n = min(self.nrow, max_rows)", nb[0] if nb else ts.node, nb is not None,
+           "min(nrow, max_rows) data rows are rendered" if nb else "the number of rendered rows is not min(self.nrow, max_rows)",
+           clause="shows min(nrow, max_rows) data rows")
+    if nb is not None:
+        N_ = _tx(nb[1])
+        cells = [n for n in ast.walk(ts.node) if isinstance(n, ast.Subscript) and isinstance(n.slice, ast.Slice)
+                 and _pm(f"_C[:{N_}]", n) is not None]
+        rng = [c for f_, c in calls_in(ts) if _pm(f"range({N_})", c) is not None]
+        ok = bool(cells) and bool(rng)
+        ctx.ob("SIB-pad", ts, f"cells column[:{N_}] and row numbers range({N_})", cells[0] if cells else ts.node, ok,
+               "every column contributes its first n cells and the row numbers count the same n rows" if ok else
+               "cells and row numbers are not both cut to the same n rows", clause="shows min(nrow, max_rows) data rows")
+    foot = [n for n in ast.walk(ts.node) if isinstance(n, ast.If) and _pm(f"max_rows < {S_}.nrow", n.test) is not None
+            or (isinstance(n, ast.If) and _pm(f"{S_}.nrow > max_rows", n.test) is not None)]
+    ok = bool(foot) and any(isinstance(x, ast.JoinedStr) and f"{S_}.nrow" in _tx(x) and "total" in _tx(x) for x in ast.walk(foot[0]))
+    ctx.ob("SIB-pad", ts, "footer '... N rows total' when max_rows < nrow", foot[0] if foot else ts.node, ok,
+           "when rows are cut the total row count is stated" if ok else
+           "no footer stating the total row count under max_rows < self.nrow", clause="when rows are cut the total row count is stated")
+    vts = repo.fn(f"{VEC}.to_string")
+    ok = any(isinstance(n, ast.If) and (_pm(f"max_elements < {vts.params[0]}.length", n.test) is not None) for n in ast.walk(vts.node)) and \
+        any(isinstance(n, ast.Subscript) and _pm(f"{vts.params[0]}[:max_elements]", n) is not None for n in ast.walk(vts.node))
+    ctx.ob("SIB-pad", vts, "Vector.to_string: first max_elements elements, '...' when cut", vts.node, ok,
+           "the vector rendering shows the first max_elements elements and marks the cut" if ok else
+           "Vector.to_string does not cut at max_elements / mark the cut", nontrivial=False, clause="all max_elements")
+    lts = repo.fn(f"{LOD}.to_string")
+    ok = any(isinstance(n, ast.If) and _pm(f"max_items < len({lts.params[0]})", n.test) is not None for n in ast.walk(lts.node)) and \
+        any(_pm(f"{lts.params[0]}.head(max_items)", c) is not None for f_, c in calls_in(lts))
+    ctx.ob("SIB-pad", lts, "ListOfDicts.to_string: head(max_items), total stated when cut", lts.node, ok,
+           "the list rendering shows the first max_items items and states the total when cut" if ok else
+           "ListOfDicts.to_string does not render head(max_items) / state the total", nontrivial=False, clause="all max_items")
     rn_ok = False
     for f, c in calls_in(ts):
         if c in upads:
